@@ -1,5 +1,6 @@
 import RjModel.Lemmas.ListingLemmas
 import RjModel.Lemmas.FilteredListing
+import RjModel.Lemmas.WalkOrderLemmas
 import RjModel.Lemmas.WalkerLemmas
 import RjModel.Generated.Walker
 /-! # C17 — the directory walk lists every included entry exactly once and always finishes -/
@@ -137,5 +138,15 @@ example :
     (listNodesF keep [] fs 3 []).map (·.1) = [[['a']], [['a'], ['y']]] ∧
     (listNodes fs 3 []).map (·.1) = [[['a']], [['a'], ['y']], [['b']], [['b'], ['x']]] := by
   decide
+
+/-- **The listing in the order of the real walk** (a whole directory before descending: `listBelow`, by depth) also holds
+exactly the entries below the root, parents first: it meets the listing assumptions of the mirror, recovery and
+never-through-a-link theorems, which therefore speak about the objects of the `syncdest` / `syncprefixes` driver commands
+(whose listings are given in the order `read_dir` produced them) as well. -/
+theorem C17_walk_order_listing (fs : FS) (hw : fs.Wf) (r : FPath)
+    (hroot : fs.get r = some .folder) (hanc : ∀ k, k < r.length → fs.get (r.take k) = some .folder)
+    (hclosed : ∀ p, p ≠ [] → fs.get (r ++ p) ≠ none → fs.get (r ++ p.dropLast) = some .folder) :
+    DestWF (fun _ => true) fs r (listBelow fs r) :=
+  destWF_of_listBelow fs hw r hroot hanc hclosed
 
 end Rj.C17
